@@ -27,7 +27,12 @@ RX = {
     'empty': '^' + esc(QIT) + r'::empty\(\)$',
 }
 LEMMA_OPS = ['ctor', 'push', 'pop', 'unblock_push', 'size', 'empty']
+BND = dict(defines=DEFS + ['CV_BOUNDED_FALLBACK 1'], unwind=8, kind='bounded', object_bits=9, timeout=600,
+           bounded='limit <= 4, <= 5 queued items, <= 4 blocked producers, <= 4 waiting pops; loops unwound (no loop contracts)')
 UNITS = [lq(n, RX[n], **({'replay': REPLAY} if n == 'push' else {})) for n in ('ctor', 'push', 'pop', 'unblock_push', 'dtor', 'size', 'empty')] + [
+    dict(lq('pop', RX['pop'], **BND), name='lq_pop_bounded'), dict(lq('push', RX['push'], **BND), name='lq_push_bounded'),
+    dict(lq('unblock_push', RX['unblock_push'], **BND), name='lq_unblock_push_bounded'),
+] + [
     # history lemma over the contracts: every call is replaced by its contract, unbounded loop with invariant (DESIGN 3.6)
     # (the six members are BOUNDARY here - only their prototypes + contracts are needed; the roots are the driver's extern "C" wrappers that call them)
     dict(name='lq_lemma', kind='lemma', driver='c10_lqueue.cpp', roots=['^drv_lq_(%s)$' % '|'.join(LEMMA_OPS)], names={'lq_' + n: RX[n] for n in LEMMA_OPS}, types=TYPES, globals=GLOBALS,
